@@ -4,7 +4,8 @@
    `run init ops` = the state after an ARBITRARY list of operations (any interleaving of label creation, references of every
    displacement kind, binds, data, gaps, section switches, embedded labels, label deltas, layout+cross-section resolution). *)
 From Coq Require Import ZArith List Bool.
-From Verif Require Import Codec.OffsetModel Labels.LabelsModel Labels.LabelsProofs Labels.LabelsExact Labels.LabelsAbs.
+From Verif Require Import Codec.OffsetModel Labels.LabelsModel Labels.LabelsProofs Labels.LabelsExact Labels.LabelsAbs
+  Labels.FlatModel Labels.FlatLemmas Labels.FlatProofs.
 Import ListNotations.
 Local Open Scope Z_scope.
 
@@ -181,3 +182,86 @@ Theorem C03_abs_exact : forall ops rid re,
                  rl_payload re = (rl_addend re + lo) mod 2 ^ 64 /\ rl_target re = Some ls).
 Proof. exact abs_exact. Qed.
 Print Assumptions C03_abs_exact.
+
+(* FULL form of C03_resolved_exact (round 2): ANY operation list with any number of layout+resolve steps anywhere in it (several
+   Flatten/ResolveCross, references created and labels bound between them), provided the layouts report the same section offsets:
+   every non-pending reference decodes to target - site + addend under those offsets; a cross-section one was patched by a layout step *)
+Theorem C03_resolved_exact_any_layouts : forall ops offs id r,
+  resolves_with offs ops ->
+  let s := run init ops in
+  nth_error (refs s) id = Some r -> ~ In id (ids (pending s)) ->
+  exists ls lo, nth_error (labels s) (r_label r) = Some (Some (ls, lo)) /\
+                decode_kind (r_kind r) (r_word r) = final_disp offs ls lo r /\
+                Z.land (r_word r) (Z.lnot (kind_mask (r_kind r))) = r_w0 r /\
+                (ls <> r_sec r -> exists so to, r_lay r = Some (so, to)).
+Proof. exact resolved_exact_stable. Qed.
+Print Assumptions C03_resolved_exact_any_layouts.
+
+(* order irrelevance: programs whose reference logs and final label tables agree (they differ only in when labels were bound, when
+   layouts were requested, and in the interleaving of operations on different sections) leave the same word in every resolved reference *)
+Theorem C03_order_irrelevant : forall ops1 ops2 offs id r1 r2,
+  resolves_with offs ops1 -> resolves_with offs ops2 ->
+  let s1 := run init ops1 in let s2 := run init ops2 in
+  labels s1 = labels s2 ->
+  nth_error (refs s1) id = Some r1 -> nth_error (refs s2) id = Some r2 -> ghost_of r1 = ghost_of r2 ->
+  ~ In id (ids (pending s1)) -> ~ In id (ids (pending s2)) ->
+  r_word r1 = r_word r2.
+Proof. exact order_irrelevant. Qed.
+Print Assumptions C03_order_irrelevant.
+
+(* embed_label_delta WITH the range check of fixes/C03-label-delta-range.patch (model operation ODeltaChecked, used by the check when the
+   tree has the check): the immediate path either emits the exact delta, which fits the signed width, or reports and changes nothing *)
+Theorem C03_delta_checked_never_truncates : forall s l b size ls lo bo,
+  nth_error (labels s) l = Some (Some (ls, lo)) -> nth_error (labels s) b = Some (Some (ls, bo)) -> size_ok size = true ->
+  (snd (step s (ODeltaChecked l b size)) = EOk /\
+   fst (step s (ODeltaChecked l b size)) = append_cur s [IRaw (le_split (Z.to_nat size) ((lo - bo) mod 2 ^ (8 * size)))] size /\
+   (size = 8 \/ - 2 ^ (8 * size - 1) <= lo - bo < 2 ^ (8 * size - 1))) \/
+  (step s (ODeltaChecked l b size) = (s, EInvalidDisp) /\ size <> 8 /\ ~ (- 2 ^ (8 * size - 1) <= lo - bo < 2 ^ (8 * size - 1))).
+Proof. exact delta_checked_never_truncates. Qed.
+Print Assumptions C03_delta_checked_never_truncates.
+
+(* ---- round 2: the FLAT byte-buffer model (Labels.FlatModel: sections are byte lists, a fixup is patched by reading the value word at
+   its numeric offset, OR-ing the encoded displacement in, writing it back - what bind_label / resolve_cross_section_fixups do) runs in
+   lock step with the structured model the theorems above are about ---- *)
+Theorem C03_flat_refines : forall ops,
+  let s := run init ops in let f := frun finit ops in
+  f_secs f = imgs (secs s) (refs s) /\ f_labels f = labels s /\ f_unresolved f = unresolved s /\ f_relocs f = relocs s /\
+  length (f_pending f) = length (pending s) /\ f_pending_rel f = pending_rel s.
+Proof. exact flat_refines. Qed.
+Print Assumptions C03_flat_refines.
+
+Theorem C03_flat_errors_agree : forall ops o,
+  snd (step (run init ops) o) = snd (fstep (frun finit ops) o).
+Proof. exact step_errors_agree. Qed.
+Print Assumptions C03_flat_errors_agree.
+
+(* the little-endian word read from the flat buffer at a reference's numeric site is the reference's word ... *)
+Theorem C03_image_word : forall ops id r,
+  let s := run init ops in let f := frun finit ops in
+  nth_error (refs s) id = Some r ->
+  read_word (nth (r_sec r) (f_secs f) []) (r_site r) (vnat (r_kind r)) = r_word r.
+Proof. exact image_word. Qed.
+Print Assumptions C03_image_word.
+
+(* ... hence resolved_exact is a statement about IMAGE BYTES: after any operations (any layouts with stable offsets) the word found
+   in the flat buffer at the site of a non-pending reference decodes to target - site + addend and its bits outside the field are the
+   emitted bits *)
+Theorem C03_image_resolved_exact : forall ops offs id r,
+  resolves_with offs ops ->
+  let s := run init ops in let f := frun finit ops in
+  nth_error (refs s) id = Some r -> ~ In id (ids (pending s)) ->
+  exists ls lo, nth_error (f_labels f) (r_label r) = Some (Some (ls, lo)) /\
+    let w := read_word (nth (r_sec r) (f_secs f) []) (r_site r) (vnat (r_kind r)) in
+    decode_kind (r_kind r) w = final_disp offs ls lo r /\ Z.land w (Z.lnot (kind_mask (r_kind r))) = r_w0 r.
+Proof. exact image_resolved_exact. Qed.
+Print Assumptions C03_image_resolved_exact.
+
+(* binding a label / resolving cross-section fixups changes no byte of the flat image outside the value words of logged references *)
+Theorem C03_image_outside_untouched : forall ops o k p,
+  (match o with OBind _ | OResolve _ => True | _ => False end) ->
+  let s := run init ops in let f := frun finit ops in let f' := fst (fstep f o) in
+  0 <= p ->
+  (forall id r, nth_error (refs s) id = Some r -> r_sec r = k -> ~ (r_site r <= p < r_site r + Z.of_nat (vnat (r_kind r)))) ->
+  nth (Z.to_nat p) (nth k (f_secs f') []) 0 = nth (Z.to_nat p) (nth k (f_secs f) []) 0.
+Proof. exact patch_outside_untouched. Qed.
+Print Assumptions C03_image_outside_untouched.
